@@ -84,7 +84,6 @@ fn i5_yaml_slice_loop() {
 
 /// I4y: yaml::Output framing: "---\n" before every document; short writes; write faults.
 #[kani::proof]
-#[kani::stub(std::io::Write::write_fmt, depcommon::write_fmt_contract)]
 #[kani::unwind(12)]
 fn i4_yaml_output_framing() {
 	let mut w = LogW::new();
